@@ -11,7 +11,7 @@ S2 has two halves:
                   call, simulation of a circuit with generation interleaved vs its never-generated twin, Canon-equality of
                   repeated / interleaved / fresh-generator / twin-circuit requests, sub-block text from different ancestors.
 """
-import os, json, inspect
+import os, sys, json, inspect
 from common import *
 import c19_lib as L
 import c19_designs as DS
@@ -795,6 +795,85 @@ def static_scan(res):
     res.hist('static_scan', 'ast_nodes', n)
 
 
+def same_name_classes(res, rng, tier):
+    """two or more circuits whose transpiled behavioural classes have the SAME __name__ (`Stage`, defined locally in different
+    builder functions) but different method bodies, plus a control pair with identical source.  Oracle: whatever was generated
+    before in this process, in whatever order, through one generator or fresh ones, each circuit's text equals the text
+    obtained for that circuit ALONE in a fresh interpreter (subprocess), and describes its own behaviour (real simulator vs
+    the Lean Verilog semantics on the emitted text)."""
+    import subprocess, itertools, py4hw
+    import vsim
+    variants = sorted(DS.SAMENAME)
+    W = 8
+    env = dict(os.environ, PYTHONPATH=REPO + os.pathsep + os.path.join(VERIF, 'harness'), MPLBACKEND='Agg')
+    procs = {v: subprocess.Popen([sys.executable, os.path.join(VERIF, 'harness', 'c19_designs.py'), v, str(W)], env=env,
+                                 stdout=subprocess.PIPE, stderr=subprocess.PIPE, text=True) for v in variants}
+    ref = {}
+    for v, p in procs.items():
+        out, err = p.communicate(timeout=300)
+        if p.returncode != 0:
+            raise ToolFailure(f'reference interpreter for Stage/{v} failed: {err[-300:]}')
+        ref[v] = json.loads(out.strip().split('\n')[-1])
+    for a, b in DS.SAMENAME_EQUAL:
+        res.count(('samename-control', a, b))
+        if ref[a] != ref[b]:
+            fail_or_known(res, f'identical-source classes Stage/{a} and Stage/{b} give different text even in fresh interpreters',
+                          dict(via='same-name classes', control=[a, b], text_a=ref[a]['mod'][:300], text_b=ref[b]['mod'][:300]))
+    perms = list(itertools.permutations(variants))
+    r2 = rng.fork('samename')
+    orders = [tuple(variants), tuple(reversed(variants))] + [tuple(r2.shuffle(variants)) for _ in range(2 if tier == 'quick' else 30)]
+    if tier != 'quick':
+        orders += perms
+    first_texts = {}
+    for k, order in enumerate(orders):
+        mode = ['fresh', 'shared', 'interleaved'][k % 3]
+        ds = {v: DS.samename(v, W) for v in order}
+        shared = py4hw.VerilogGenerator(ds[order[0]]['hw'])
+        seq = list(order) if mode != 'interleaved' else list(order) + list(reversed(order))
+        for pos, v in enumerate(seq):
+            got = DS.samename_texts(ds[v], shared if mode != 'fresh' else None)
+            first_texts.setdefault(v, (got['raw_hier'], ds[v]))
+            res.count(('samename', k, pos, v), hist={'samename_mode': mode})
+            for what in ('hier', 'mod'):
+                if got[what] != ref[v][what]:
+                    fail_or_known(res, f'text of circuit Stage/{v} generated after {list(seq[:pos])} in one process differs from its text in a fresh interpreter',
+                                  dict(via='same-name classes', order=list(seq), position=pos, variant=v, generator=mode, request=what,
+                                       fresh_interpreter=ref[v][what][-400:], this_process=got[what][-400:],
+                                       rerun='harness/c19_designs.py <variant> 8 prints the reference'))
+                    break
+    # the text describes its own circuit: real simulator vs Lean Verilog semantics on the text generated in THIS process
+    vb = vsim.VBatch()
+    exp = {}
+    for v, (text, d) in sorted(first_texts.items()):
+        hist = [{'a': r2.bits(W)} for _ in range(8)]
+        with L.quiet():
+            sim = d['hw'].getSimulator()
+        tr = []
+        for cyc in hist:
+            d['inputs']['a'].put(cyc['a'])
+            with L.quiet():
+                sim.clk(1)
+            tr.append(d['r'].get())
+        try:
+            vb.add(text, 'STop', 'clk', hist, ['r'], label=v)
+            exp[v] = (tr, hist)
+        except L.vparse.VParseError:
+            res.hist('samename_threeway', 'outside-parser-subset')
+    try:
+        for jb in vb.run():
+            v = jb['label']
+            tr, hist = exp[v]
+            vt = [t['r'] for t in jb['trace'][1:]]
+            known = [(i, x, y) for i, (x, y) in enumerate(zip(vt, tr)) if x != 'x']
+            res.hist('samename_threeway', 'compared' if known else 'all-x')
+            bad = [(i, x, y) for i, x, y in known if x != y]
+            if bad:
+                fail_or_known(res, f'text generated for circuit Stage/{v} does not behave like that circuit: cycle {bad[0][0]} verilog r={bad[0][1]} simulator r={bad[0][2]}',
+                              dict(via='same-name classes', variant=v, request='behaviour', inputs=hist, verilog=vt, simulator=tr))
+    except ToolFailure as e:
+        res.broken.append(('correspondence', 'samename-threeway', str(e)[:300]))
+
+
 def main(res, tier, rng, replay):
     ok, metas, errors, changed = regenerate()
     for e in errors:
@@ -806,6 +885,8 @@ def main(res, tier, rng, replay):
     # --- known-finding witnesses first
     witness_platform_build(res)
     witness_live_attr(res)
+    # --- same-named behavioural classes, BEFORE anything else is transpiled in this process
+    same_name_classes(res, rng, tier)
     # --- seeded scenarios
     n = 45 if tier == 'quick' else 700
     scs = []
